@@ -169,9 +169,9 @@ class Xrl:
                 raise RuntimeError("no locale fixture")
             self.env.update(LOCPATH=ld, XDRV_LOCALE=locale)
         if variant == "msan":
-            self.env.setdefault("MSAN_OPTIONS", "halt_on_error=0:exit_code=0:print_stats=0")
+            self.env.setdefault("MSAN_OPTIONS", "halt_on_error=0:exit_code=0:print_stats=0:allocator_may_return_null=1")
         if variant == "asan":
-            self.env.setdefault("ASAN_OPTIONS", "halt_on_error=0:detect_leaks=0:abort_on_error=0:print_summary=0")
+            self.env.setdefault("ASAN_OPTIONS", "halt_on_error=0:detect_leaks=0:abort_on_error=0:print_summary=0:allocator_may_return_null=1")
             self.env.setdefault("UBSAN_OPTIONS", "halt_on_error=0:print_stacktrace=1")
         self.nproc = nproc or min(16, os.cpu_count() or 4)
         self.drivers = []
@@ -390,7 +390,12 @@ def replay_generic(path):
         rec = recs[0]
         print("  %s%r -> v0=%r v1=%r err=%s code=%d flags=%d leak=%d %s" % (c.get("fn", c.get("op")), tuple(c["args"]), float(rec["v0"]), float(rec["v1"]),
               bool(rec["flags"] & F_ERR), rec["code"], rec["flags"], rec["leak"], " | ".join(l for l in lines if l)))
-        if "expect" in c:
+        if c.get("expect", {}).get("type") == "noslot-same":
+            r1 = (X.op(c["op"], c["sig"], *args, mode=M_NULL)[0] if "op" in c else X.call(c["fn"], *args, mode=M_NULL))[0]
+            ok = (r1["v0"] == rec["v0"] or (np.isnan(r1["v0"]) and np.isnan(rec["v0"]))) and (r1["v1"] == rec["v1"] or (np.isnan(r1["v1"]) and np.isnan(rec["v1"])))
+            print("     %s: without an error slot the call returns v0=%r v1=%r" % ("ok" if ok else "FAIL", float(r1["v0"]), float(r1["v1"])))
+            bad += (not ok)
+        elif "expect" in c:
             ok, txt = judge(c["expect"], rec)
             print("     %s: %s" % ("ok" if ok else "FAIL", txt))
             bad += (not ok)
